@@ -464,6 +464,8 @@ pub struct Driver<'a> {
     pub steps: usize,
     pub looks: usize,
     pub head_calls: usize,
+    /// how often a head write was refused with OutputOverflow
+    pub head_overflows: usize,
     pub stall: usize,
     pub late_skips: usize,
     pub await_decided_at: Option<usize>,
@@ -508,6 +510,7 @@ impl<'a> Driver<'a> {
             steps: 0,
             looks: 0,
             head_calls: 0,
+            head_overflows: 0,
             stall: 0,
             late_skips: 0,
             await_decided_at: None,
@@ -644,6 +647,7 @@ impl<'a> Driver<'a> {
                     }
                     Err(Error::OutputOverflow) => {
                         self.stall += 1;
+                        self.head_overflows += 1;
                     }
                     Err(e) => {
                         self.flow = AnyFlow::SendRequest(f);
